@@ -93,11 +93,13 @@ type Model struct {
 	jobOf   map[uint64]string
 	idleAt  *time.Time
 	disk    map[uint64]persisted
+	diskIdle *time.Time // idle-since as persisted by the last acknowledged update
 }
 
 func NewModel(now time.Time) *Model {
 	t := now
-	return &Model{entries: map[uint64]*entry{}, jobOf: map[uint64]string{}, idleAt: &t, disk: map[uint64]persisted{}}
+	t2 := now
+	return &Model{entries: map[uint64]*entry{}, jobOf: map[uint64]string{}, idleAt: &t, disk: map[uint64]persisted{}, diskIdle: &t2}
 }
 
 func (m *Model) Update(req map[string][]*target.Target, now time.Time) {
@@ -126,14 +128,40 @@ func (m *Model) Update(req map[string][]*target.Target, now time.Time) {
 	if len(ne) != 0 {
 		m.idleAt = nil
 	}
+	m.diskIdle = nil
+	if m.idleAt != nil {
+		t := *m.idleAt
+		m.diskIdle = &t
+	}
 }
 
-func (m *Model) Restart() {
+// UpdateMemoryOnly: an update that took effect in memory but was not persisted
+// (its acknowledgement failed after the in-memory switch).
+func (m *Model) UpdateMemoryOnly(req map[string][]*target.Target, now time.Time) {
+	disk, di := m.disk, m.diskIdle
+	m.Update(req, now)
+	m.disk, m.diskIdle = disk, di
+}
+
+// Restart resumes what was persisted; now is the start time of the new process.
+func (m *Model) Restart(now time.Time) {
 	ne := map[uint64]*entry{}
 	for h, p := range m.disk {
 		ne[h] = &entry{state: p.state, health: pscrape.HealthUnknown, series: p.series, total: p.total}
 	}
 	m.entries = ne
+	m.idleAt = nil
+	if m.diskIdle != nil {
+		t := *m.diskIdle
+		m.idleAt = &t
+	}
+	if len(ne) == 0 && m.idleAt == nil {
+		t := now
+		m.idleAt = &t
+	}
+	if len(ne) != 0 {
+		m.idleAt = nil
+	}
 }
 
 // Scrape records one scrape attempt that reached the scrape stage.
